@@ -35,6 +35,10 @@ REQ_DID = 0x1234
 REPLY = {"B": bytes([0x7F, 0x22, 0x21]), "P": bytes([0x7F, 0x22, 0x78]), "S": bytes([0x7F, 0x22, 0x78]),
          "M": bytes([0x62, 0x99, 0x99, 0xAA]), "Q": bytes([0x7F, 0x31, 0x78]), "X": bytes([0x7F, 0x22, 0xEE]), "N": bytes([0x7F, 0x22, 0x31]),
          "F": bytes([0x62, 0x12, 0x34, 0xAA])}
+# the same events for a second request: DiagnosticSessionControl(3) with the suppress bit, which the ECU does not honour
+REPLY_DSC = {"B": bytes([0x7F, 0x10, 0x21]), "P": bytes([0x7F, 0x10, 0x78]), "S": bytes([0x7F, 0x10, 0x78]),
+             "M": bytes([0x50, 0x05, 0x00, 0x32, 0x01, 0xF4]), "Q": bytes([0x7F, 0x31, 0x78]), "X": bytes([0x7F, 0x10, 0xEE]), "N": bytes([0x7F, 0x10, 0x22]),
+             "F": bytes([0x50, 0x03, 0x00, 0x32, 0x01, 0xF4])}
 ALPHABET = "TCEBPSMQXNF"
 
 
@@ -48,6 +52,7 @@ class ScriptTransport:
         self.script = list(script)
         self.trace = trace
         self.shared = {"reconnects": 0, "pos": 0, "silent": False}
+        self.table = REPLY
         self.dead = False
 
     def _t(self) -> float:
@@ -89,7 +94,7 @@ class ScriptTransport:
             return b""
         if ev == "S":
             self.shared["silent"] = True
-        return REPLY[ev]
+        return self.table[ev]
 
     async def request_unsafe(self, data: bytes, timeout: float | None = None, tags: list[str] | None = None) -> bytes:
         await self.write(data, timeout, tags)
@@ -203,7 +208,7 @@ def model(script: str, max_retry: int, timeout: float) -> dict[str, Any]:
 
 
 def run_real(script: str, client_retry: int, client_timeout: float, cfg_retry: int | None, cfg_timeout: float | None,
-             max_virtual: float = 5e4, raw: bool = False) -> dict[str, Any]:
+             max_virtual: float = 5e4, raw: bool = False, dsc: bool = False) -> dict[str, Any]:
     from gallia.services.uds.core import service
     from gallia.services.uds.core.client import UDSClient, UDSRequestConfig
 
@@ -217,12 +222,20 @@ def run_real(script: str, client_retry: int, client_timeout: float, cfg_retry: i
         cfg = None
         if cfg_retry is not None or cfg_timeout is not None:
             cfg = UDSRequestConfig(timeout=cfg_timeout, max_retry=cfg_retry)
+        if dsc:
+            tr.table = REPLY_DSC
+            return await cl.request(service.DiagnosticSessionControlRequest(3, suppress_response=True), cfg)
         if raw:  # the same bytes through send_raw(): the reply rules are the same, the request object is an opaque RawRequest
             return await cl.send_raw(bytes([0x22]) + REQ_DID.to_bytes(2, "big"), cfg)
         return await cl.request(service.ReadDataByIdentifierRequest(REQ_DID), cfg)
 
     status, val, dur = run_virtual(go, max_virtual=max_virtual)
-    return {"status": status, "val": val, "dur": dur, "trace": trace, "rec": box["tr"].reconnects if "tr" in box else 0}
+    ret = None
+    if status == "ok":
+        ret = val.pdu
+        if dsc:  # back to the event alphabet's reply bytes
+            ret = {v: REPLY[k] for k, v in REPLY_DSC.items()}.get(bytes(ret), ret)
+    return {"status": status, "val": val, "ret": ret, "dur": dur, "trace": trace, "rec": box["tr"].reconnects if "tr" in box else 0}
 
 
 def check(case: dict[str, Any]) -> list[tuple[str, str]]:
@@ -237,9 +250,9 @@ def check(case: dict[str, Any]) -> list[tuple[str, str]]:
     eff_timeout = cft if cft is not None else ct
     m = model(script, eff_retry, eff_timeout)
     lim = 3 * m["bound"] + 3 * max(eff_timeout, 20.0) * (eff_retry + 1) + 10
-    r = run_real(script, cr, ct, cfr, cft, max_virtual=2 * lim + 100, raw=bool(case.get("raw")))
+    r = run_real(script, cr, ct, cfr, cft, max_virtual=2 * lim + 100, raw=bool(case.get("raw")), dsc=bool(case.get("dsc")))
     out: list[tuple[str, str]] = []
-    desc = f"script={_sd(case)} max_retry={cr}/{cfr} timeout={ct}/{cft}" + (" via send_raw" if case.get("raw") else "")
+    desc = f"script={_sd(case)} max_retry={cr}/{cfr} timeout={ct}/{cft}" + (" via send_raw" if case.get("raw") else "") + (" [10 83]" if case.get("dsc") else "")
     tx = sum(1 for k, _ in r["trace"] if k == "write")
     # ---- boundedness
     if r["status"] in ("stalled", "overrun"):
@@ -275,7 +288,7 @@ def check(case: dict[str, Any]) -> list[tuple[str, str]]:
         return out
     # ---- outcome
     if r["status"] == "ok":
-        got_kind, got_val = "return", r["val"].pdu
+        got_kind, got_val = "return", r["ret"]
     else:
         e = r["val"]
         got_kind = "raise"
@@ -374,7 +387,7 @@ def case_s(draw) -> dict[str, Any]:
     script = draw(st.text(alphabet=ALPHABET, min_size=0, max_size=12))
     return {"script": script, "client_retry": draw(st.integers(0, 3)), "client_timeout": draw(st.sampled_from([0.1, 2.0, 5.0])),
             "cfg_retry": draw(st.one_of(st.none(), st.integers(0, 3))),
-            "cfg_timeout": draw(st.one_of(st.none(), st.sampled_from([0.1, 1.0, 25.0]))), "raw": draw(st.sampled_from([False, False, True]))}
+            "cfg_timeout": draw(st.one_of(st.none(), st.sampled_from([0.1, 1.0, 25.0]))), "raw": draw(st.sampled_from([False, False, True])), "dsc": draw(st.integers(0, 3)) == 0}
 
 
 def nontrivial(case: dict[str, Any]) -> bool:
@@ -396,7 +409,7 @@ def run_shard(spec: dict[str, Any], seed: int) -> Collector:
 
     def body(case: dict[str, Any]) -> None:
         res = check(case)
-        col.case((_sd(case), case["client_retry"], case.get("cfg_retry"), case["client_timeout"], case.get("cfg_timeout"), bool(case.get("raw"))),
+        col.case((_sd(case), case["client_retry"], case.get("cfg_retry"), case["client_timeout"], case.get("cfg_timeout"), bool(case.get("raw")), bool(case.get("dsc"))),
                  nontrivial(case), cls=("long" if case.get("long") else f"len{min(len(case['script']), 5)}"
                                         + ("+override" if case.get("cfg_retry") is not None or case.get("cfg_timeout") is not None else "")),
                  sample={**case, "reference": {k: (v.hex() if isinstance(v, bytes) else v) for k, v in
@@ -418,6 +431,7 @@ def run_shard(spec: dict[str, Any], seed: int) -> Collector:
                 body({"script": s, "client_retry": mr, "client_timeout": 2.0, "cfg_retry": None, "cfg_timeout": None})
             if "M" in s or "F" in s:
                 body({"script": s, "client_retry": 1, "client_timeout": 2.0, "cfg_retry": None, "cfg_timeout": None, "raw": True})
+                body({"script": s, "client_retry": 1, "client_timeout": 2.0, "cfg_retry": None, "cfg_timeout": None, "dsc": True})
         col.exhaustive_parts.append(f"all scripts of length <= {max(spec['maxlen'], 0)} starting with '{first}' x max_retry 0..3")
         return col
     if w == "gen":
